@@ -211,3 +211,79 @@ Theorem C01_matrix_completes :
          exists o : bfs_out, bfs (impl_of d) cfg starts = Ok o /\ completed o = true.
 Proof. exact @matrix_bfs_completes. Qed.
 Print Assumptions C01_matrix_completes.
+
+From V Require Import Base Tensor Graph GraphProofs GraphImpl Hash Perm Codec CodecProofs Def Bfs BfsRun BfsProofs NumpyBfs NumpyBfsProofs InstPerm InstBfs InstCodec InstCodecBfs InstCodecNumpy.
+
+(* the WHOLE BFS run on ENCODED rows (neighbours by generated routines, hashes of code rows, de-duplication by hash) is, decoded, the BFS model on impl_of d - for every configuration, start set, callback; no hash hypothesis *)
+Theorem C01_bfs_lib_is_model :
+  forall (d : gdesc) (cfg : bfs_cfg) (starts : list state),
+         wf_perm_desc d ->
+         (g_hasher d = HIdentity -> single_word d) ->
+         (forall s : state, In s starts -> Ustates d s) ->
+         bfs_lib d cfg starts = bfs (impl_of d) cfg starts.
+Proof. exact @bfs_lib_is_model. Qed.
+Print Assumptions C01_bfs_lib_is_model.
+
+(* hence the encoded computation reports exactly the distance classes (NoColl only) *)
+Theorem C01_bfs_lib_completed_correct :
+  forall (d : gdesc) (cfg : bfs_cfg),
+         wf_perm_desc d ->
+         flag_sound d ->
+         NoCollOn (impl_of d) (Ustates d) ->
+         1 <= batch_size cfg ->
+         forall starts : list state,
+         (forall s : state, In s starts -> Ustates d s) ->
+         starts <> [] ->
+         forall o : bfs_out,
+         bfs_lib d cfg starts = Ok o ->
+         completed o = true ->
+         let L := fun i : nat => layer state st_eq_dec (acts (impl_of d)) starts i in
+         let D := length (Bfs.sizes o) in
+         Bfs.sizes o = map (fun i : nat => length (L i)) (seq 0 D) /\
+         (forall i : nat, (i < D)%nat -> L i <> []) /\
+         (forall i : nat, (D <= i)%nat -> L i = []) /\
+         (forall (k : nat) (l : list state), In (k, l) (layers o) -> NoDup l /\ set_eq l (L k)) /\
+         (exists l : list state, In ((D - 1)%nat, l) (layers o)) /\
+         (exists l : list state, In (0%nat, l) (layers o)).
+Proof. exact @bfs_lib_completed_correct. Qed.
+Print Assumptions C01_bfs_lib_completed_correct.
+
+(* and unconditionally for one-word identity-hash codes *)
+Theorem C01_bfs_lib_identity_hash_unconditional :
+  forall (d : gdesc) (cfg : bfs_cfg),
+         wf_perm_desc d ->
+         flag_sound d ->
+         g_hasher d = HIdentity ->
+         single_word d ->
+         1 <= batch_size cfg ->
+         forall starts : list state,
+         (forall s : state, In s starts -> Ustates d s) ->
+         starts <> [] ->
+         forall o : bfs_out,
+         bfs_lib d cfg starts = Ok o ->
+         completed o = true ->
+         let L := fun i : nat => layer state st_eq_dec (acts (impl_of d)) starts i in
+         let D := length (Bfs.sizes o) in
+         Bfs.sizes o = map (fun i : nat => length (L i)) (seq 0 D) /\
+         (forall i : nat, (i < D)%nat -> L i <> []) /\
+         (forall i : nat, (D <= i)%nat -> L i = []) /\
+         (forall (k : nat) (l : list state), In (k, l) (layers o) -> NoDup l /\ set_eq l (L k)) /\
+         (exists l : list state, In ((D - 1)%nat, l) (layers o)) /\
+         (exists l : list state, In (0%nat, l) (layers o)).
+Proof. exact @bfs_lib_identity_hash_unconditional. Qed.
+Print Assumptions C01_bfs_lib_identity_hash_unconditional.
+
+(* one expansion step on code rows = the image of the abstract step *)
+Theorem C01_bfs_encoded_step_correct :
+  forall (steps : list mix_step) (mult : Z) (d : gdesc),
+         wf_perm_desc d ->
+         (g_hasher d = HIdentity -> single_word d) ->
+         forall st : bfs_st,
+         AllU (Ustates d) (layer1 st) ->
+         bfs_encoded_step steps mult d (map (encoded_row d) (layer1 st)) (seen st) =
+         (map (encoded_row d) (fst (fst (expand_plain (mk_impl steps mult d) st))),
+          snd (fst (expand_plain (mk_impl steps mult d) st)),
+          snd (expand_plain (mk_impl steps mult d) st)) /\
+         AllU (Ustates d) (fst (fst (expand_plain (mk_impl steps mult d) st))).
+Proof. exact @bfs_encoded_step_correct. Qed.
+Print Assumptions C01_bfs_encoded_step_correct.
